@@ -189,6 +189,7 @@ static void
 focus(struct initparser *p)
 {
 	struct type *t;
+	unsigned long long off = 0;
 
 	switch (p->sub->type->kind) {
 	case TYPEARRAY:
@@ -201,12 +202,14 @@ focus(struct initparser *p)
 	case TYPEUNION:
 		p->sub->u.mem = p->sub->type->u.structunion.members;
 		t = p->sub->u.mem->type;
+		/* not 0 when unnamed bit-fields precede the first named member */
+		off = p->sub->u.mem->offset;
 		break;
 	default:
 		fatal("internal error: init cursor has unexpected type");
 		return;  /* unreachable */
 	}
-	subobj(p, t, 0);
+	subobj(p, t, off);
 }
 
 static void
